@@ -6,19 +6,19 @@ HOOK_COMMITS = ["915111c"]
 
 CHECKS = {
  "C01": dict(engine="E1 simnet + E2 loopback", level="model_checking", technique="stateless deviation-bounded exploration of the real Worker under a controlled environment (all answer sequences with <= D deviations; all placements of <= F network faults), plus exhaustive grid over real sockets",
-   text="Every emitted DATA of the real sending Worker is checked against its file slice on all executions with at most D (1..3) adversarial answers and on all placements of up to F (1..3) network faults with a reference client; exhaustive within the stated grids and bounds.",
+   text="Every emitted DATA of the real sending Worker is checked against its file slice on all executions with at most D (1..3) adversarial answers and on all placements of up to F (1..3) network faults with a reference client; exhaustive within the stated grids and bounds. Socket::send failures are an environment answer too (the n-th datagram refused, every n); duplicate mode explored as well.",
    note="Trusted: SimSocket/virtual clock seam (one cfg hook), the slice monitor, the reference client; bounds D,F <= 3; small-scope grids plus boundary values rather than all 2^16 x 2^16 parameter pairs.", design="§3, §6 C01"),
  "C02": dict(engine="E1 simnet + E2 loopback", level="model_checking", technique="stateless deviation-bounded exploration of the real receiving Worker (all arrival sequences with <= D deviations, all placements of <= F faults) with the file read back at every ACK emission",
-   text="All arrival histories with at most D deviations (duplicates, gaps, old blocks, premature short blocks, strays, undecodable datagrams, timeouts) at every position, and all placements of up to F faults with a reference sender; the file on disk is observed inside Socket::send at the instant of each ACK.",
+   text="All arrival histories with at most D deviations (duplicates, gaps, old blocks, premature short blocks, strays, undecodable datagrams, timeouts) at every position, and all placements of up to F faults with a reference sender; the file on disk is observed inside Socket::send at the instant of each ACK. Write errors (RLIMIT_FSIZE) at every block: no block that could not be stored is acknowledged.",
    note="Trusted: SimSocket seam, RFC 1350 reference receiver used as oracle, file snapshots (len+hash).", design="§3, §6 C02"),
  "C03": dict(engine="E2 loopback", level="model_checking", technique="exhaustive enumeration of filenames over a path-token alphabet up to a length bound against the real Server, with tree snapshots and a lexical reference resolver",
    text="All names of <=3 (thorough 4; 6 on the separator/dot sub-alphabet) tokens over an 18-token path alphabet, as RRQ and WRQ, in 4-5 configurations; each accepted request is carried to its end; served bytes identify their origin; the sandbox tree is snapshotted before and after.",
    note="Trusted: reference resolver; Linux path semantics; no symlinks in the served tree.", design="§4, §6 C03"),
- "C04": dict(engine="E1 simnet", level="fault_enumeration", technique="exhaustive enumeration of fault placements (drop/duplicate/delay/swap, both directions, both timer orders) over the closed system real Worker + reference peer",
-   text="Every placement of up to F (2, thorough 3) faults over all datagrams of a transfer, both roles, windowsize 1..4, four conformant peer variants, plus k<=5 consecutive losses at every position and all timeout/deliver words up to 12 answers; completion and byte identity are asserted whenever fewer than 6 faults occurred.",
+ "C04": dict(engine="E1 simnet + E2 loopback", level="fault_enumeration", technique="exhaustive enumeration of fault placements (drop/duplicate/delay/swap, both directions, both timer orders) over the closed system real Worker + reference peer",
+   text="Every placement of up to F (2, thorough 3) faults over all datagrams of a transfer, both roles, windowsize 1..4, four conformant peer variants, plus k<=5 consecutive losses at every position and all timeout/deliver words up to 12 answers; completion and byte identity are asserted whenever fewer than 6 faults occurred. Through the real Server (timeout=1 acknowledged): the same datagram lost 1, 2, 4 times in a row, both directions; the bundled tftpc behind a UDP relay that loses exactly one data-phase datagram, every early position.",
    note="Trusted: reference peers (RFC 1350/1123/7440), timer model (timers fire when the network is quiet; fair alternation).", design="§3.3, §6 C04"),
  "C05": dict(engine="E2 loopback (subprocess)", level="model_checking", technique="exhaustive enumeration of hostile datagram sequences up to length 2 over a structured alphabet, each against a fresh tftpd process, followed by a liveness probe",
-   text="All sequences of 1 (thorough 2, same/different source) datagrams over a ~190-datagram hostile alphabet (every option boundary value up to and beyond 2^64) x 4 configurations, each against a fresh process of the real binary; exit status and a canonical RRQ decide.",
+   text="All sequences of 1 (thorough 2, same/different source) datagrams over a ~190-datagram hostile alphabet (every option boundary value up to and beyond 2^64) x 4 configurations, each against a fresh process of the real binary; exit status and a canonical RRQ decide; after a completed transfer the canonical request is also issued from the endpoint that owned it.",
    note="Trusted: the alphabet covers the structurally relevant datagrams; arbitrary byte strings are C10's domain.", design="§6 C05"),
  "C06": dict(engine="E2 loopback", level="model_checking", technique="explicit-state breadth-first search over file-tree states with the real Server executing every transition, reference policy oracle, hidden-state differential guard",
    text="BFS to depth 2 (thorough 3) over 24 request actions from an initial tree in all 32 configurations; every transition is judged by a reference policy function written from the statement.",
@@ -39,7 +39,7 @@ CHECKS = {
    text="Every abort point of uploads of 1..5 blocks x cause x clean/keep x windowsize; all interleavings of two real Workers on one path; the same history through the real Server; single failing uploads through the real Server onto fresh and existing names.",
    note="The check-then-create window of two WRQs in no-overwrite mode is outside the enumerated schedules.", design="§6 C13"),
  "C14": dict(engine="E2 loopback + E1 simnet", level="exploration", technique="exhaustive run of a boundary-value configuration grid (in-process Client/Server, real binaries) plus exhaustive single-fault placement between two real Workers",
-   text="Boundary grid size x blksize x windowsize x timeout x port mode x direction with the in-process bundled client; real tftpc/tftpd binaries on IPv4/IPv6 with three path styles and three refusal kinds; two real Workers over the simulated network with every placement of <=1 (2) faults.",
+   text="Boundary grid size x blksize x windowsize x timeout x port mode x direction with the in-process bundled client; real tftpc/tftpd binaries on IPv4/IPv6 with three path styles and three refusal kinds; two real Workers over the simulated network with every placement of <=1 (2) faults; the bundled client (in-process and tftpc) behind a UDP relay losing one datagram at each early position; >65535 blocks with the real binaries.",
    note="Grid = boundary-value selection of a large space, hence 'exploration'.", design="§6 C14"),
  "C15": dict(engine="E1 simnet + E2 loopback", level="fault_enumeration", technique="exhaustive enumeration of fault placements in the block-number wrap neighbourhood of >65535-block transfers (real Worker + reference peer)",
    text="Transfers of 65535..65539 (and 131074) blocks, both roles, windowsize placing the wrap at the end/start/middle of a window, every placement of up to F (1, thorough 2) faults on datagrams carrying/acknowledging blocks 65530..65541; plus uploads and downloads of 65541 blocks through the real Server in both port modes.",
@@ -57,7 +57,7 @@ CHECKS = {
    text="Every argument vector of <=3 (thorough <=4, 5 on a sub-alphabet) flag units over ~35 units goes through the real Config::new / ClientConfig::new and is compared with a reference parser written from the statement; permutations of non-repeating vectors are compared with each other.",
    note="Trusted: the reference parser; -h/--help excluded (process::exit).", design="§6 C17"),
  "C18": dict(engine="E3 seq", level="model_checking", technique="exhaustive enumeration of operation sequences up to a depth on the real Window, against a VecDeque reference model",
-   text="All operation sequences of length 5 (thorough 6) over (size, chunk, file length) in {0..3}x{1..3}x{0..7} in source, sink and mixed regimes, plus window sizes 65534/65535, are applied to the real Window and every observer is compared with a reference queue after each operation.",
+   text="All operation sequences of length 5 (thorough 6) over (size, chunk, file length) in {0..3}x{1..3}x{0..7} in source, sink and mixed regimes, plus window sizes 65534/65535, are applied to the real Window and every observer is compared with a reference queue after each operation; whole files of 8191..70000 bytes streamed through fill/remove and 1023..65535 pieces buffered before one empty().",
    note="Trusted: the reference queue; regular files only.", design="§6 C18"),
 }
 
